@@ -207,10 +207,83 @@ def x_fromregex( ctx ):
         res.ok( src, extra[0], 'states added for the inner symbols of a multi-symbol encoding are non-terminal' )
     elif extra:
         res.bad( src, extra[0], extra[0], 'an intermediate state inside a multi-byte symbol must not accept' )
+    # ---- multi-symbol expansion: fresh registry keys, chain linking, wildcard duplication
+    exp = [ f for f in ast.walk( sl ) if isinstance( f, ast.For ) and isinstance( f.target, ast.Tuple ) and isinstance( f.iter, ast.Subscript ) and isinstance( f.iter.slice, ast.Slice ) and f.iter.slice.lower is None and try_fold( f.iter.slice.upper ) == -1 ]
+    if len( exp ) != 1:
+        raise AnalysisError( 'from_regex: the loop adding intermediate states for a multi-symbol encoding not found' )
+    xl = exp[0]
+    ENC = xl.target.elts[1].id if isinstance( xl.target.elts[1], ast.Name ) else None
+    X = Matcher()
+    newst = X.find( xl, '%s[_add] = cls( name=_nm, terminal=False, **kwds )' % STATES )
+    if newst is None or not isinstance( X.b['_add'], ast.Name ):
+        raise AnalysisError( 'from_regex: creation of an intermediate state not found' )
+    ADD = X.name( '_add' )
+    # (a) the key of a new intermediate state collides neither with an fsm state number (dead ones included) nor with a state already registered
+    wl = [ w for w in xl.body if isinstance( w, ast.While ) and ADD in names_in( w.test ) ]
+    tested = set()
+    if wl:
+        for c in ( wl[0].test.values if isinstance( wl[0].test, ast.BoolOp ) and isinstance( wl[0].test.op, ast.Or ) else [ wl[0].test ] ):
+            m_ = pmatch( c, '%s in _where' % ADD )
+            if m_ is not None:
+                tested.add( txt( m_['_where'] ))
+    if not wl:
+        raise AnalysisError( 'from_regex: search for an unused state key not recognised' )
+    need = { 'machine.map': 'an fsm state number (the dead state has no entry in the registry, but transitions INTO it are recognised by its number being absent)',
+             STATES: 'a state already in the registry (an intermediate state added earlier would be overwritten, and the chain that leads to it dangles)' }
+    for where, why in need.items():
+        if where in tested or ( where == 'machine.map' and 'machine.map.keys()' in tested ):
+            res.ok( src, wl[0], 'a new intermediate state\'s key is not in %s' % where )
+        else:
+            res.bad( src, wl[0], 'unused-key search tests only %s' % sorted( tested ),
+                     'the key chosen for a new intermediate state may equal %s' % why )
+    # (b) the chain: each intermediate state is linked from the previous one of the chain (the running "last"), not from the origin
+    link = X.find( xl, '%s[_from][%s] = %s[%s]' % ( STATES, ENC, STATES, ADD ))
+    if link is None or not isinstance( X.b['_from'], ast.Name ):
+        res.bad( src, xl, 'chain linking', 'each intermediate state must be reached from the previous state of the chain on the corresponding inner symbol' )
+    else:
+        LST = X.name( '_from' )
+        upd = [ s_ for s_ in xl.body if isinstance( s_, ast.Assign ) and dotted( s_.targets[0] ) == LST and dotted( s_.value ) == ADD ]
+        if upd and xl.body.index( upd[0] ) > [ i for i, s_ in enumerate( xl.body ) if any( link is y for y in ast.walk( s_ )) ][0]:
+            res.ok( src, link, 'the chain is linked from the running last state, which then advances to the new one' )
+        else:
+            res.bad( src, link, link, 'the link must start at the running last state of the chain (advanced to the new state afterwards): linking every inner symbol from the origin state breaks encodings of three or more symbols' )
+    # (c) the wildcard of the origin is copied to each intermediate state; its presence is tested with the ENCODED key
+    dup = [ i for i in ast.walk( xl ) if isinstance( i, ast.If ) and any( pmatch( b, '%s[%s][True] = %s[_p][True]' % ( STATES, ADD, STATES )) is not None for b in i.body ) ]
+    if not dup:
+        res.bad( src, xl, 'wildcard duplication', "an intermediate state must inherit the origin's '.' transition: a symbol sharing inner symbols with a listed one is admitted by '.' / [^...]" )
+    else:
+        t = dup[0].test
+        raw = isinstance( t, ast.Compare ) and len( t.ops ) == 1 and isinstance( t.ops[0], ast.In ) and isinstance( t.left, ast.Constant ) and t.left.value in ( True, None )
+        if raw:
+            res.bad( src, dup[0], t, "plain dict membership bypasses state.encode: the wildcard is stored under the place-holder key ANY (-1), so `True in <state>` is always False and the wildcard is never copied to the intermediate states - e.g. [^π]* over bytes rejects ρ, which shares its lead byte with π" )
+        elif ( isinstance( t, ast.Compare ) and isinstance( t.ops[0], ast.In ) and ( dotted( t.left ) or '' ).endswith( '.ANY' )) or 'get' in attrs_in( t ):
+            res.ok( src, dup[0], "the origin's wildcard is copied to every intermediate state (presence tested with the encoded key)" )
+        else:
+            raise AnalysisError( 'from_regex: wildcard-presence test not recognised: %s' % norm_text( t ))
     # ---- result: non-consuming copy of the initial state
     rets = [ r for r in fn.body if isinstance( r, ast.Return ) ]
     if rets and isinstance( rets[-1].value, ast.Tuple ) and pmatch( rets[-1].value.elts[-1], 'state( %s[machine.initial] )' % STATES ) is not None:
         res.ok( src, rets[-1], 'the machine starts in a non-consuming copy ( state( ... )) of the initial state: the first symbol is consumed only if accepted' )
+        # ... and that copy does not accept: state.__init__'s copy branch takes `terminal` from the argument unless it is None, and the default is False
+        ini = src.get( 'state.__init__' )
+        ar = ini.args
+        dflt = dict( zip( [ a.arg for a in ar.args[len( ar.args ) - len( ar.defaults ):] ], ar.defaults ))
+        cp = [ s_ for s_ in ast.walk( ini ) if isinstance( s_, ast.Assign ) and dotted( s_.targets[0] ) == 'self._terminal' and 'other' in names_in( s_.value ) ]
+        call_kw = { k.arg: k.value for k in rets[-1].value.elts[-1].keywords }
+        tv = try_fold( call_kw['terminal'] ) if 'terminal' in call_kw else try_fold( dflt.get( 'terminal' ), default='?' )
+        if cp:
+            from .fold import fold, NoFold
+            try:
+                got = fold( cp[0].value, { 'terminal': tv, 'other._terminal': True } )
+            except NoFold as exc:
+                raise AnalysisError( 'state.__init__: copy of the terminal flag outside the modelled subset: %s' % exc )
+            if not got:
+                res.ok( src, cp[0], 'the non-consuming initial copy is never terminal (terminal=%r reaches the copy branch): acceptance needs at least one consumed symbol' % ( tv, ))
+            else:
+                res.bad( src, cp[0], 'state( <terminal initial state> ) is terminal (terminal argument %r)' % ( tv, ),
+                         'the non-consuming copy of the initial state inherits its terminal flag: a nullable expression ( a*, .* ) then accepts with nothing consumed, and input that cannot start a sentence is no longer rejected' )
+        else:
+            raise AnalysisError( 'state.__init__: copy branch of the terminal flag not found' )
     else:
         res.bad( src, rets[-1] if rets else fn, 'initial state', 'the initial state must be a non-consuming copy of the fsm\'s initial state' )
     return res
